@@ -486,7 +486,7 @@ CliReady == /\ nIn < Len(CliChunks)
                /\ NeedsAny(c, {ACT, BADACT}, cout, {TRIG, TRIGT})
                /\ Needs(c, {END}, cout, CFG)
                /\ (HasK(c, {END}) => EndOK)
-               /\ (~Window => ~InWindow /\ pcO \notin {"trig", "listen", "trig2"})
+               /\ (~Window => ~InWindow /\ ~HasK(bufO, {TRIGT}))
 SrvReady == /\ nOut < Len(SrvChunks)
             /\ LET c == SrvChunks[nOut + 1] IN
                /\ Needs(c, {CFG, BADCFG}, sin, ACT)
